@@ -199,7 +199,7 @@ inline void runWorkload(const Workload& w, OutputSink& out)
             for (size_t i = 0; i < w.status.size(); ++i)
             {
                 const StatusOp& op = w.status[i];
-                if (op.kind <= 2)
+                if (op.kind <= 2 || op.kind == 6)
                     st.update(makeStatusUpdate(op, i));
                 else if (op.kind == 3)
                     st.removeDeviceById(op.dev);
@@ -312,7 +312,8 @@ inline rc::Gen<Workload> genWorkload(int tier)
                         case 2:
                             r.msgType = 3, r.dataType = 4, r.kind = 1, r.pid = *anyInt<uint8_t>();
                             r.data = *bytesOfLen(*range<size_t>(0, 8));
-                            r.trailer = *bytesOfLen(1);
+                            if (*range<int>(0, 1))
+                                r.trailer = *bytesOfLen(1);  // half of the LIN frames end right after the data (no checksum byte)
                             break;
                         case 3:
                             r.msgType = 1, r.dataType = 0, r.kind = 2;
@@ -331,7 +332,7 @@ inline rc::Gen<Workload> genWorkload(int tier)
                 for (int i = 0; i < n; ++i)
                 {
                     StatusOp op;
-                    op.kind = *rc::gen::weightedElement<uint8_t>({{5, 0}, {8, 1}, {2, 2}, {2, 3}, {2, 4}, {1, 5}});
+                    op.kind = *rc::gen::weightedElement<uint8_t>({{5, 0}, {8, 1}, {2, 2}, {2, 3}, {2, 4}, {1, 5}, {2, 6}});
                     op.dev = *rc::gen::element<uint16_t>(0, 1, 2);
                     op.iface = *rc::gen::element<uint32_t>(0, 1, 2);
                     op.viaDecoder = *range<uint8_t>(0, 1);
